@@ -67,16 +67,30 @@ def reservedBlocks (cls : String) : List (Int × Int × Int) :=
     [(25, 28, 25), (45, 48, 45), (56, 57, 56), (65, 68, 65), (75, 78, 75), (85, 88, 85), (95, 98, 95)]
   else []
 
-/-- a non-member code inside a reserved block is reported as the block's representative -/
+/-- the code the standard gives as "not available / undefined = default" for an enumeration: what a code
+without a name (and outside the reserved blocks) is reported as -/
+def defaultMember (cls : String) : Option Int :=
+  if cls = "ShipType" then some 0
+  else if cls = "NavigationStatus" then some 15
+  else if cls = "EpfdType" then some 0
+  else if cls = "NavAid" then some 0
+  else none
+
+/-- a non-member code inside a reserved block is reported as the block's representative, any other
+non-member code as the enumeration's default member (where the standard names one) -/
 def blockOK (members : String → List Int) (cls : String) (raw m : Int) : Bool :=
-  (reservedBlocks cls).all fun (lo, hi, rep) =>
-    !(decide (lo ≤ raw) && decide (raw ≤ hi) && !(members cls).contains raw) || m == rep
+  ((reservedBlocks cls).all fun (lo, hi, rep) =>
+    !(decide (lo ≤ raw) && decide (raw ≤ hi) && !(members cls).contains raw) || m == rep) &&
+  (match defaultMember cls with
+   | some d => (members cls).contains raw ||
+       (reservedBlocks cls).any (fun (lo, hi, _) => decide (lo ≤ raw) && decide (raw ≤ hi)) || m == d
+   | none => true)
 
 /-- Does the decoded value `v` agree with what the standard assigns to a field of kind `k` holding
 the bits `bits`?  `members cls` is the member list of the library's enumeration `cls`: an
 enumeration value is the member with the raw code if there is one, the representative of the
-standard's reserved block the code lies in (`reservedBlocks`), and otherwise *some* member (the
-fallback member is then the library's choice). -/
+standard's reserved block the code lies in (`reservedBlocks`), otherwise the enumeration's default
+member (`defaultMember`), and only where the standard names none *some* member. -/
 def check (members : String → List Int) (k : Kind) (bits : Bits) (v : Val) : Bool :=
   match k with
   | .u => v == .int (toNat bits)
